@@ -249,6 +249,29 @@ func (eng *Engine) solve(body string, o *Obligation, cfg *SolverCfg) {
 	}
 	o.secs = time.Since(t0).Seconds()
 	if o.status == "failed" && o.expect != "sat" {
+		// prefer a counterexample with short byte slices / strings: it can be replayed
+		if len(o.small) > 0 {
+			var extra strings.Builder
+			for _, t := range o.small {
+				var b strings.Builder
+				printTerm(&b, t, nil)
+				fmt.Fprintf(&extra, "(assert %s)\n", b.String())
+			}
+			small := strings.Replace(script, "(check-sat)\n", extra.String()+"(check-sat)\n", 1)
+			smallFile := base + ".small.smt2"
+			if os.WriteFile(smallFile, []byte(small), 0o644) == nil {
+				ctx, cancel := context.WithTimeout(context.Background(), 12*time.Second)
+				r := runSolver(ctx, "z3-new", smallFile, 10*time.Second)
+				cancel()
+				if r.status == "sat" {
+					o.output = r.out
+					o.smt = smallFile
+					fmt.Fprintf(&log, "[z3-new %0.2fs] sat with inputs of length <= 40\n", r.secs)
+				} else {
+					os.Remove(smallFile)
+				}
+			}
+		}
 		o.model = parseModel(o.output, o.pnames)
 	}
 	if o.status == "discharged" && !cfg.keepSMT {
@@ -333,4 +356,17 @@ func (eng *Engine) solveAll(results []*FuncResult, cfg *SolverCfg, filter func(o
 		}()
 	}
 	wg.Wait()
+	// obligations that timed out while the machine was saturated get one more attempt, alone,
+	// with a tripled budget: a timeout under load must not be mistaken for a failed proof
+	retry := *cfg
+	retry.timeout = cfg.timeout * 3
+	retry.first = cfg.first * 3
+	for _, j := range jobs {
+		if j.o.status == "undecided" {
+			prev := j.o.output
+			body := eng.buildScript(j.fc, j.o)
+			eng.solve(body, j.o, &retry)
+			j.o.output = prev + "--- retry alone ---\n" + j.o.output
+		}
+	}
 }
